@@ -311,8 +311,10 @@ pub fn replay<P: Property>(path: &Path) -> i32 {
     crate::init_process();
     match read_replay::<P>(path) {
         Ok((case, _)) => {
-            let mut ctx = Ctx::new(P::ID, &[], Tier::Quick);
-            ctx.strict = true;
+            let lenient = std::env::var_os("A10VERIF_LENIENT").is_some();
+            let known = if lenient { load_known(P::ID) } else { Vec::new() };
+            let mut ctx = Ctx::new(P::ID, &known, Tier::Quick);
+            ctx.strict = !lenient;
             run_case::<P>(&case, &mut ctx);
             if let Some(e) = ctx.infra {
                 eprintln!("infrastructure error: {e}");
